@@ -41,6 +41,19 @@ def run(tier, seed):
     rep = vlib.load_report(rep_path)
     vlib.require(rep["evaluations"] > 1000 and rep["nontrivial"] > 50, "M2 replay too small")
     v.add_report(rep, "M2:MC_C02", traces=len(r["exports"]) - 1)
+    # second alphabet: regex metacharacters as literal pattern text
+    sigma2 = ['"a"', '"+"', '"("', '"."', '"/"', '"^"']
+    r2 = vlib.run_tlc("MC_C02", CFG % (maxlen, ", ".join(sigma2), "TRUE", "FALSE", "FALSE"), wd, "mc_meta", workers=8 if tier == "quick" else 14, timeout=3000)
+    if r2["error"]:
+        raise vlib.ToolError("M1 (metacharacter alphabet) failed: " + r2["error"][:2000])
+    v.add_tlc(r2)
+    cases2 = os.path.join(wd, "cases_meta.jsonl")
+    vlib.write_jsonl(cases2, r2["exports"])
+    rep2_path = os.path.join(wd, "report_meta.json")
+    vlib.run_harness(["replay", cases2, rep2_path])
+    rep2 = vlib.load_report(rep2_path)
+    vlib.require(rep2["evaluations"] > 1000 and rep2["nontrivial"] > 20, "M2 replay (metacharacter alphabet) too small")
+    v.add_report(rep2, "M2:MC_C02/meta", traces=len(r2["exports"]) - 1)
 
     # M3: random patterns beyond the bounded alphabet/length
     n = 6000 if tier == "quick" else 40000
@@ -62,7 +75,7 @@ def run(tier, seed):
         "full-regex rules (/re/) are outside the specification's pattern language; see C02 level_note",
     ]
     return v.finish("model_checking",
-                    "M1/M2: all pattern bodies of length 1..%d over {a,b,.,/,^,*} x 3 left anchors x 2 right anchors x 24 URLs whose hosts repeat the anchor text; a pattern is non-trivial if it matches at least one URL of the universe. M3: seeded random patterns (len<=14, wider alphabet) x random URLs validated by TLC against the same Ideal operator" % maxlen,
+                    "M1/M2: all pattern bodies of length 1..%d over {a,b,.,/,^,*} and over {a,+,(,.,/,^} x 3 left anchors x 2 right anchors x 30 URLs whose hosts repeat the anchor text; a pattern is non-trivial if it matches at least one URL of the universe. M3: seeded random patterns (len<=14, wider alphabet) x random URLs validated by TLC against the same Ideal operator" % maxlen,
                     exhaustive=True)
 
 
